@@ -128,6 +128,8 @@ type Ctx struct {
 	ff    *Term
 	// AbstractMulDiv replaces bvmul/bvudiv/bvurem on widths >= AbstractMinW by
 	// uninterpreted functions (shared by implementation and reference terms).
+	// SmallBases marks variables known to be <= 2^62: base + small constant never wraps.
+	SmallBases     map[int]bool
 	AbstractMulDiv bool
 	AbstractMinW   int
 }
@@ -371,6 +373,11 @@ func (c *Ctx) Eq(a, b *Term) *Term {
 	if a == b {
 		return c.tt
 	}
+	if a.S.K == KBV {
+		if ca, cb, ok := c.sameSmallBase(a, b); ok {
+			return c.Bool(ca.Cmp(cb) == 0)
+		}
+	}
 	if a.IsConst() && b.IsConst() {
 		return c.Bool(a.Val.Cmp(b.Val) == 0)
 	}
@@ -399,6 +406,42 @@ func (c *Ctx) Eq(a, b *Term) *Term {
 }
 
 // ---- bit-vectors
+
+// baseOff decomposes t into base + constant offset (base may be nil for a constant).
+func (c *Ctx) baseOff(t *Term) (*Term, *big.Int) {
+	if t.IsConst() {
+		return nil, t.Val
+	}
+	if t.Op == OpBvAdd {
+		if t.Args[0].IsConst() {
+			return t.Args[1], t.Args[0].Val
+		}
+		if t.Args[1].IsConst() {
+			return t.Args[0], t.Args[1].Val
+		}
+	}
+	return t, new(big.Int)
+}
+
+var small62 = new(big.Int).Lsh(big.NewInt(1), 62)
+
+// sameSmallBase reports whether a and b are base+c1, base+c2 over one
+// variable known to be small, with small non-negative offsets.
+func (c *Ctx) sameSmallBase(a, b *Term) (*big.Int, *big.Int, bool) {
+	if c.SmallBases == nil {
+		return nil, nil, false
+	}
+	ba, ca := c.baseOff(a)
+	bb, cb := c.baseOff(b)
+	if ba == nil || ba != bb || !c.SmallBases[ba.ID] {
+		return nil, nil, false
+	}
+	if ca.Cmp(small62) >= 0 || cb.Cmp(small62) >= 0 {
+		return nil, nil, false
+	}
+	return ca, cb, true
+}
+
 
 func toSigned(v *big.Int, w int) *big.Int {
 	if v.Bit(w-1) == 1 {
@@ -509,6 +552,21 @@ func (c *Ctx) Bin(op Op, a, b *Term) *Term {
 			panic("smt: bad bin op")
 		}
 		return c.BVBig(r, w)
+	}
+	// offsets from a common base: (x + c1) + c2, (x + c1) - c2, (x + c1) - (x + c2)
+	if op == OpBvAdd || op == OpBvSub {
+		ba, ca := c.baseOff(a)
+		bb, cb := c.baseOff(b)
+		switch {
+		case op == OpBvAdd && ba != nil && bb == nil && a.Op == OpBvAdd:
+			return c.Bin(OpBvAdd, ba, c.BVBig(new(big.Int).Add(ca, cb), w))
+		case op == OpBvAdd && ba == nil && bb != nil && b.Op == OpBvAdd:
+			return c.Bin(OpBvAdd, bb, c.BVBig(new(big.Int).Add(ca, cb), w))
+		case op == OpBvSub && bb == nil && ba != nil:
+			return c.Bin(OpBvAdd, ba, c.BVBig(new(big.Int).Sub(ca, cb), w))
+		case op == OpBvSub && ba != nil && ba == bb:
+			return c.BVBig(new(big.Int).Sub(ca, cb), w)
+		}
 	}
 	// light algebraic simplification
 	switch op {
@@ -638,6 +696,16 @@ func (c *Ctx) Cmp(op Op, a, b *Term) *Term {
 	}
 	if a == b {
 		return c.Bool(op == OpBvUle || op == OpBvSle)
+	}
+	if ca, cb, ok := c.sameSmallBase(a, b); ok {
+		// no wrap-around: the order of the sums is the order of the offsets
+		// (also as signed numbers: base + offset < 2^63)
+		switch op {
+		case OpBvUlt, OpBvSlt:
+			return c.Bool(ca.Cmp(cb) < 0)
+		default:
+			return c.Bool(ca.Cmp(cb) <= 0)
+		}
 	}
 	if op == OpBvUlt && c.isZero(b) {
 		return c.ff
